@@ -31,7 +31,7 @@ def generate(tape, tier="quick"):
         # real library components stepping with relativedelta (months from a month-end day, mixed with days)
         from ..calendar import gen_calendar
         return gen_calendar(tape)
-    if tape.chance(1, 150):
+    if tape.chance(1, 60):
         return gen_e1_long(tape)
     return gen_e1(tape, tier, cycle_chance=(1, 2))
 
@@ -43,7 +43,7 @@ RULE = RULE + (" A 1/15 share of the runs is the calendar family (sim/calendar.p
 REAL = list(REAL) + ["CallbackGenerator / CallbackComponent with relativedelta steps (calendar family)"]
 CAL_OWN = ('cal-announced-vs-actual', 'cal-run-raises')
 
-RULE = RULE + (' A 1/150 share is the large family (gen.gen_e1_long): a series of 14-70 components each reading its upstream neighbour while connecting, listed downstream-first / upstream-first / shuffled, or an hourly producer read through a delay of 130-260 hours by a slow consumer (and directly by a prompt one).')
+RULE = RULE + (' A 1/60 share is the large family (gen.gen_e1_long): a series of 14-70 components each reading its upstream neighbour while connecting, listed downstream-first / upstream-first / shuffled, or an hourly producer read through a delay of 130-260 hours by a slow consumer (and directly by a prompt one).')
 
 
 def execute(sc):
